@@ -85,4 +85,34 @@ mod verif_kani_number {
         kani::cover!(a.partial_cmp(&b).is_none());
         if let Some(o) = a.partial_cmp(&b) { assert!(o == a.cmp(&b)); }
     }
+
+    fn stub_format(_a: std::fmt::Arguments<'_>) -> String { String::new() }
+    fn any_moderate() -> f64 { let x: f64 = kani::any(); kani::assume(x.is_finite() && x.abs() <= 1e9); x }
+
+    /// C16 (all moderate finite f64 x unit in {none, m, s}): + and - keep the common unit (a unit-less operand adopts the
+    /// other's unit) and fail exactly when both operands carry different units; the magnitude is the f64 sum / difference
+    #[kani::proof]
+    #[kani::unwind(6)]
+    #[kani::stub(alloc::fmt::format, stub_format)]
+    fn k_number_add_sub() {
+        let u1 = mk_unit("m", 1.0);
+        let u2 = mk_unit("s", 1.0);
+        let ka: u8 = kani::any(); let kb: u8 = kani::any();
+        kani::assume(ka < 3 && kb < 3);
+        let (x, y) = (any_moderate(), any_moderate());
+        let a = Number { value: x, unit: pick(ka, u1, u2) };
+        let b = Number { value: y, unit: pick(kb, u1, u2) };
+        let sub: bool = kani::any();
+        let r = if sub { a - b } else { a + b };
+        let differ = ka != 0 && kb != 0 && ka != kb;
+        kani::cover!(r.is_ok() && ka != kb);
+        kani::cover!(r.is_err());
+        assert!(r.is_err() == differ);
+        if let Ok(n) = &r {
+            assert!(n.value == if sub { x - y } else { x + y });
+            if ka != 0 { assert!(n.unit == a.unit); }
+            else if kb != 0 { assert!(n.unit == b.unit); }
+        }
+        std::mem::forget(r);
+    }
 }
